@@ -216,13 +216,15 @@ def e2e_oracle(ctx):
     if ctx.thorough:
         grp += [("group14", KexGroup14.P), ("group16", KexGroup16SHA512.P)]
     for kex, P in grp:
-        bad = [0, P, P + 1, -1, P + rng.randrange(2, P), -rng.randrange(2, P)]
-        for v in (bad if ctx.thorough else rng.sample(bad[:3], 2) + rng.sample(bad[3:], 1)):
+        nP = (P.bit_length() + 7) // 8
+        bad = [0, P, P + 1, -1, P + rng.randrange(2, P), -rng.randrange(2, P), -(1 << (8 * nP - 1)),
+               -(1 << (8 * nP - 1)) + rng.randrange(1, 1 << 64)]
+        for v in (bad if ctx.thorough else rng.sample(bad[:3], 1) + rng.sample(bad[3:6], 1) + rng.sample(bad[6:], 1)):
             plans.append((kex, "client", 31, "sms", 1, v, "f=%s" % tag(v, P)))
             plans.append((kex, "server", 30, "m", 0, v, "e=%s" % tag(v, P)))
     for kex in (["gex256", "gex"] if ctx.thorough else ["gex256"]):
         P = KexGroup14.P  # the server's pack holds this group
-        for v in [0, P, rng.choice([P + 1, -5, 2 * P])]:
+        for v in [0, P, rng.choice([P + 1, -5, 2 * P]), -(1 << 2047) + rng.randrange(0, 1 << 64)]:
             plans.append((kex, "client", 33, "sms", 1, v, "f=%s" % tag(v, P)))
             plans.append((kex, "server", 32, "m", 0, v, "e=%s" % tag(v, P)))
         for bits in [512, 1023, 8193] + ([768, 16384] if ctx.thorough else []):
@@ -407,8 +409,9 @@ def tag(v, P):
 
 def run(ctx):
     ctx.rule = ("engine-level scenarios: both roles of group1/14/14-256/16 (and the same code over moduli 2, 7, 23) at "
-                "0, 1, 2, p-2, p-1, p, p+1, 2p, negatives and random out-of-range values with minimal and padded "
-                "mpints; gex client groups of 512..16384 bits, 2^1023-1, 2^1023, 2^8192-1, 2^8192, 0, 1, negatives, "
+                "0, 1, 2, p-2, p-1, p, p+1, 2p, negatives (incl. those whose encoding starts with the byte 0x80: "
+                "-128, -2^(8n-1) and neighbours for n = the modulus' byte length +-1) and random out-of-range values, "
+                "all written by the harness' own RFC 4251 encoder, minimal and padded; gex client groups of 512..16384 bits, 2^1023-1, 2^1023, 2^8192-1, 2^8192, 0, 1, negatives, "
                 "then f around [1,p-1]; gex server e around [1,p-1] after new/old-style requests; toy and real curve "
                 "points (valid, off-curve, other curve, infinity, malformed, low-order, zero secret); honest "
                 "exchanges; malformed/out-of-order packet sequences; end-to-end MITM edits. distinct = distinct "
@@ -419,6 +422,10 @@ def run(ctx):
     ctx.assume("a curve point the library accepts is a valid public value (point validation is cryptography's)")
     ctx.build()
     rng = ctx.rng
+    from pv.core import InfraError
+
+    if L.check_raw_mpint():
+        raise InfraError("C08: the harness' own mpint encoder fails its RFC 4251 vectors: %r" % L.check_raw_mpint())
 
     scs = []
     scs += L.group_boundary_scenarios(rng, extra=4 if ctx.thorough else 2)
